@@ -2022,6 +2022,31 @@ fn c12_public_status() {
     let ns = gs.take_action(&mv(i, d));
     assert!(pp_of(ns.unwrap_play_phase().push_pull_state()) == next_pp(&pb, side, pp, i, d), "C12 (public API): reported status describes the step just made");
 }
+// @obl props=C07,C04 tier=thorough kind=harness-contract mem=12 est=600 timeout=3600
+// @fns GameState::has_move GameState::extend_with_valid_curr_player_piece_moves GameState::extend_with_pull_piece_actions GameState::extend_with_push_piece_actions GameState::has_non_passing_like_action GameState::can_pass
+// @clause cross-check without the generator abstraction: the real has_move with the three real generators at step 0 (seam = recorder, which is emptiness-faithful: the real code only calls it with a non-empty word). A reported loss implies that no (square, direction) is a legal single step or push start; no loss implies a generator handed a non-empty mask to the seam
+#[kani::proof]
+#[kani::unwind(7)]
+#[kani::stub(crate::action::map_bit_board_to_squares, seam_rec)]
+#[kani::stub(crate::engine::hash_history_contains_hash_twice, twice_oracle)]
+fn c07_has_move_monolithic_step0() {
+    let side: bool = kani::any();
+    let pb = any_wf_board();
+    let gs = play_state(&pb, side, 0, PushPullState::None);
+    let i = any_sq();
+    let d = any_direction();
+    let _rep = seam_reset();
+    oracle_reset();
+    let hm = gs.has_move(&pb);
+    kani::cover!(hm.is_some());
+    kani::cover!(hm.is_none());
+    if hm.is_some() {
+        assert!(!simple_step(&pb, side, i, d) && !push_start(&pb, side, 0, i, d), "C07/C04: a loss by immobilisation is reported only when no legal step exists");
+        assert!(hm == Some(winner(!side)));
+    } else {
+        assert!(unsafe { SEAM_N } >= 1, "C07: no loss reported => some generator produced an action");
+    }
+}
 // ===========================================================================
 // meta: the canary.  An `ensures` that is false on the real supported_pieces; it must FAIL.
 // If it ever passes, the pipeline is not checking anything and the whole run is UNDECIDED.
